@@ -7,9 +7,8 @@
    invariant of the whole machine over every reachable state and the run fixpoint (9), programming / the manager's pass /
    ALWAYS FIRES as an invariant of every reachable state (10-10c), set_timer replaces (11), the arithmetic of
    dispatch_source_set_timer and dispatch_after incl. the out-of-range `when` (13-14).
-   Conditional on termination flags: 9 (run) and 10b (pass) speak about runs / passes that have left their loop
-   (the boolean returned by the fuel-indexed model functions); that the fuel used by the model always suffices is
-   validated by the correspondence (flag compared on every run), not proved.
+   Termination of _dispatch_timers_run and of the manager's pass is proved (C11_run_total, C11_manager_pass): no theorem
+   carries a "leaves its loop" hypothesis any more.
    12 covers one invocation, 12b every history of fires and invocations of one configuration (clamp at LONG_MAX
    excluded: impossible below 2^63 ns).
    Out of the model: timerfd/epoll delivering the expiry, the hop of the fired source to its target queue (C15/C01),
@@ -145,13 +144,19 @@ Theorem C11_remove_key_frame : forall key0 key S h dt,
 Proof. exact remove_ext. Qed.
 Print Assumptions C11_remove_key_frame.
 
-(* run fixpoint: after _dispatch_timers_run has left its loop, no armed timer of that heap is due *)
-Theorem C11_run_fixpoint : forall N st tidx now st' ev,
-  0 <= N /\ 2 * N + 2 <= CAPMAX ->
-  GInv N st -> timers_run st tidx now = (st', ev, true) ->
-  GInv N st' /\ forall t, member st' tidx t -> now < t_target (tm st' t).
-Proof. exact run_fixpoint_sys. Qed.
-Print Assumptions C11_run_fixpoint.
+(* _dispatch_timers_run TERMINATES (the clock reading is the cached one: constant during the call, below 2^63; timer values
+   in the ranges of 13 / 13b / 14, kept by every operation: VInv) and then no armed timer of that heap is due.
+   Measure: per stored timer, "has a pending configuration" + "target <= now"; every iteration lowers it for the timer in
+   the min slot (fire: removed or re-armed strictly after now; configure: the pending configuration is consumed).
+   If the clock were re-read in every iteration a 1 ns repeating timer could keep the loop busy for ever: the cache is what
+   the proof uses. *)
+Theorem C11_run_total : forall N, 0 <= N /\ 2 * N + 2 <= CAPMAX ->
+  forall st tidx now,
+  GInv N st -> VInv st -> 0 <= now < T63 ->
+  exists st' ev, timers_run st tidx now = (st', ev, true) /\
+    GInv N st' /\ VInv st' /\ forall t, member st' tidx t -> now < t_target (tm st' t).
+Proof. exact run_total. Qed.
+Print Assumptions C11_run_total.
 
 (* 10. programming: needs_program is cleared only by programming the kernel timer to the minimum target (or marking
    the heap dirty when that target is already due, or deleting the kernel timer when the heap is empty); with np_ok in
@@ -170,16 +175,18 @@ Proof. exact program_min. Qed.
 Print Assumptions C11_program_min.
 
 (* 10b. the manager's pass _dispatch_event_loop_drain_timers (run every heap, clear the dirty bits, program every heap that
-   needs it, repeat while dirty): when it returns, for every clock needs_program is clear, the kernel timer is armed at
-   exactly the minimum target (kernel_ok), and no armed timer is due at the cached clock readings *)
+   needs it, repeat while dirty) TERMINATES within N + 1 passes (a pass can leave the dirty bits set only if a pending
+   configuration was consumed during it: a re-clocked timer landed, due, in a heap that had already been run), and when it
+   returns, for every clock needs_program is clear, the kernel timer is armed at exactly the minimum target, and no armed
+   timer is due at the cached clock readings *)
 Theorem C11_manager_pass : forall N, 0 <= N /\ 2 * N + 2 <= CAPMAX ->
-  forall fuel st nows st' ev calls,
-  (forall i, 0 <= i < 3 -> 0 <= nows i < T63) -> SInv N st ->
-  drain fuel st nows [] [] = (st', ev, calls, true) ->
-  SInv N st' /\ s_dirty st' = false /\
-  forall i, 0 <= i < 3 ->
-    npb st' i = false /\ kernel_ok st' i /\ forall t, member st' i t -> nows i < t_target (tm st' t).
-Proof. exact drain_Sys. Qed.
+  forall fuel st nows,
+  (forall i, 0 <= i < 3 -> 0 <= nows i < T63) -> SVInv N st -> N < Z.of_nat fuel ->
+  exists st' ev calls, drain fuel st nows [] [] = (st', ev, calls, true) /\
+    SVInv N st' /\ s_dirty st' = false /\
+    forall i, 0 <= i < 3 ->
+      npb st' i = false /\ kernel_ok st' i /\ forall t, member st' i t -> nows i < t_target (tm st' t).
+Proof. exact manager_pass_total. Qed.
 Print Assumptions C11_manager_pass.
 
 (* 10c. ALWAYS FIRES, as the invariant it is: in every state reachable from boot by client / source-side operations
@@ -189,12 +196,13 @@ Print Assumptions C11_manager_pass.
    clock, armed with an expiry <= the timer's target.  With 10b: after the pass, the second alternative holds and the
    target is in the future; with 8: when the kernel timer expires and the manager runs, the timer fires.
    (Delivery of the expiry by timerfd/epoll and the scheduling of the manager thread are outside the model.) *)
-Theorem C11_always_fires : forall N n l t i,
-  0 <= N /\ 2 * N + 2 <= CAPMAX -> svalid N n init_state l -> 0 <= i < 3 ->
+Theorem C11_always_fires : forall N, 0 <= N /\ 2 * N + 2 <= CAPMAX ->
+  forall n l t i,
+  N <= n -> svalid2 N n init_state l -> 0 <= i < 3 ->
   let st := fold_left (sstep n) l init_state in
   member st i t ->
   s_dirty st = true \/ (s_harmed st i = true /\ s_ktimer st i <= t_target (tm st t)).
-Proof. exact always_fires_reachable. Qed.
+Proof. exact always_fires_total. Qed.
 Print Assumptions C11_always_fires.
 
 (* 11. dispatch_source_set_timer: the timer follows only the new settings *)
@@ -261,6 +269,21 @@ Theorem C11_config_ranges : forall k start interval leeway cur_clock,
 Proof. exact config_spec. Qed.
 Print Assumptions C11_config_ranges.
 
+(* 13b. DISPATCH_SOURCE_TYPE_INTERVAL (_dispatch_interval_config_create): interval between one unit and one year, first target =
+   first multiple of the interval after now on the uptime clock, target <= deadline <= target + interval (also when
+   interval * leeway wraps in 64 bits: intervals above 213 days with a large permille leeway get a smaller leeway) *)
+Theorem C11_interval_config_ranges : forall start interval leeway animation now_up c tg dl itv,
+  in64 interval -> in64 leeway -> 1 <= now_up < MAXV ->
+  interval_config_create start interval leeway animation now_up = Some (c, tg, dl, itv) ->
+  c = 0 /\
+  (start = FOREVER -> tg = INT64_MAX /\ dl = INT64_MAX /\ itv = INT64_MAX) /\
+  (start <> FOREVER ->
+     start = 0 /\ 1 <= interval /\
+     (if animation then NSEC_PER_FRAME else 1000000) <= itv <= FOREVER_NSEC /\
+     tg mod itv = 0 /\ now_up < tg <= now_up + itv /\ 1 <= tg < INT64_MAX /\ tg <= dl <= tg + itv).
+Proof. exact interval_config_spec. Qed.
+Print Assumptions C11_interval_config_ranges.
+
 (* 14. dispatch_after: the timer's target is exactly the time `when` denotes, on the clock it was expressed in (so, with 8,
    the block is not run before it); an elapsed `when` is a plain dispatch_async; leeway within [1 ms, 60 s]; a `when`
    that denotes no representable time gives target ~0 with a wrapped deadline and is never armed (behaves as FOREVER) *)
@@ -294,7 +317,7 @@ Example C11_nonvacuous :
   (let l := [SOp (TNew 1 0); SOp (TCfg 1 0 100 105 10); SOp (TReg 1); SOp (TResume 1);
              SOp (TNew 2 4); SOp (TCfg 2 1 90 90 7); SOp (TReg 2); SOp (TResume 2);
              SDrain 4 (fun _ => 125); SOp (TLatch 1 126); SExpire 0; SDrain 4 (fun _ => 131)] in
-   svalid 3 3 init_state l /\
+   svalid2 3 3 init_state l /\
    let st := fold_left (sstep 3) l init_state in
    member st 0 1 /\ s_dirty st = false /\ s_harmed st 0 = true /\ s_ktimer st 0 = 140 /\ t_target (tm st 1) = 140) /\
   (* count bound (12b): fire at 135 (4 boundaries of 100+10k), lagging second fire, latch, fire, latch *)
@@ -305,7 +328,7 @@ Proof.
   split; [apply Inv_empty|]. split; [vm_compute; repeat split; reflexivity|].
   split; [vm_compute; repeat split; reflexivity|]. split.
   - cbv zeta. split.
-    + cbn [svalid sguard guard external].
+    + cbn [svalid2 sguard2 guard guardV external].
       repeat split; try lia; try (vm_compute; congruence); try (vm_compute; reflexivity); try (intros i Hi; unfold T63; lia).
     + vm_compute. repeat split; congruence.
   - split; [|vm_compute; reflexivity].
